@@ -128,7 +128,9 @@ contracts = {
              # a newly recorded value keeps exactly its bytes: in the row, or (empty placeholder in the row) in the value store under the same key
              "implies(not exists(v, Row_Value, old(tbl_Value)[v] and v.value_hash == result), exists(v, Row_Value, tbl_Value[v] and v.value_hash == result and "
              f" (v.value == {D0} or (v.value == '' and self.value_store != None and (result in old(vs) or vs.get(result) == Some({D0}))))))",
-             "implies(exists(v, Row_Value, old(tbl_Value)[v] and v.value_hash == result), tbl_Value == old(tbl_Value))"]),
+             "implies(exists(v, Row_Value, old(tbl_Value)[v] and v.value_hash == result), tbl_Value == old(tbl_Value))",
+             # whenever offloading applies, the store holds the bytes afterwards -- also when the row existed already (re-recording repairs a store that lost them)
+             f"implies(self.value_store != None and sizeof({D0}) >= self.value_store_min_size, result in vs and (result in old(vs) or vs[result] == {D0}))"]),
  "Value.in_value_store": dict(where=f"{DB}:Value.in_value_store", params={"self": ROW}, returns=BOOL, ensures=["result == (len(self.value) == 0)"]),
  "RedunBackendDb._get_value_data": dict(where=f"{DB}:RedunBackendDb._get_value_data", params={"self": REF, "value_row": ROW}, returns=[STR, BOOL], ghost=G,
     lib={"self.value_store.get(": lib_vs_get},
